@@ -10,7 +10,7 @@ namespace ratio
     void disj_flaw::compute_resolvers()
     {
         for (const auto &p : lits)
-            add_resolver(*new choose_lit(smt::rational(1, static_cast<smt::I>(lits.size())), *this, p));
+            add_resolver(*new choose_lit(smt::rational(1, static_cast<smt::I>(lits.size())), *this, p), false); // the literal of a disjunct has a meaning of its own: it can hold whether or not this disjunction is in the plan..
     }
 
     disj_flaw::choose_lit::choose_lit(smt::rational cst, disj_flaw &disj_flaw, const smt::lit &p) : resolver(p, cst, disj_flaw) {}
